@@ -49,6 +49,7 @@ func init() {
 	registerFrames()
 	registerCancel()
 	registerIsolation()
+	registerGor()
 }
 
 func jsonUnmarshal(s string, v any) error { return json.Unmarshal([]byte(s), v) }
